@@ -610,5 +610,17 @@ def expand_fr(st, seed):
         par = dict(nu=_q(rng.choice([1, 2, 3])))
     if st["op"] == "fisher":
         par = dict(D=_q(rng.choice([1, 2])), r=_q(rng.choice([1, 3])), g=_q(rng.choice([1, 2])))
+    extra = {}
+    if st["op"] == "ou":
+        par = dict(alpha=[_q(rng.choice([1, 2])), _q(rng.choice([-1, 3]))], mu=[_q(rng.choice([0, 1])), _q(rng.choice([-1, 2]))],
+                   sigma=[_q(rng.choice([2, 4])), _q(rng.choice([2, -2]))])
+    if st["op"] == "ns":
+        par = dict(rho=_q(rng.choice([1, 2, 4])), nu=_q(rng.choice([1, 2, 3])))
+        coefP = [[[rng.randint(-2, 2) for _ in range(deg + 1)] for _ in range(R)] for _ in range(d)]
+        for dd in range(d):
+            for j in range(R):
+                if not any(coefP[dd][j][1:]):
+                    coefP[dd][j][1] = rng.choice([-1, 1, 2])
+        extra = dict(coefP=coefP, twinP=spinn_expand(coefP, d, R, 1))
     return dict(kind="fwdrev", op=st["op"], d=d, withT=st["withT"], R=R, M=M, b=b, coef=coef, xs=xs, idxs=idxs, par=par, Tmax=st["Tmax"],
-                twin=spinn_expand(coef, d, R, M), src="tlc", struct={k: v for k, v in st.items() if k != "kind"})
+                twin=spinn_expand(coef, d, R, M), src="tlc", struct={k: v for k, v in st.items() if k != "kind"}, **extra)
